@@ -489,6 +489,25 @@ func checkDropped(w *World, r *Report, fns []*ssa.Function) {
 				if !ok || n.Obj().Pkg() == nil || !strings.HasSuffix(n.Obj().Pkg().Path(), "/opentype/gtab") {
 					continue
 				}
+				if n.Obj().Name() == "LookupTable" {
+					// a rebuilt lookup must end up in the new lookup list: the pointer is stored
+					// (as an element of the list, or as an argument of the append that extends it)
+					key := r.MkKey("dropped", name, "rebuilt LookupTable")
+					stored := false
+					if al.Referrers() != nil {
+						for _, ref := range *al.Referrers() {
+							if st, ok := ref.(*ssa.Store); ok && st.Val == ssa.Value(al) {
+								stored = true
+							}
+						}
+					}
+					if stored {
+						r.OK("dropped", key, w.Pos(al.Pos()), "stored into the new lookup list")
+					} else {
+						r.Fail("dropped", key, w.Pos(al.Pos()), "a lookup is rebuilt for the subset but never stored into the new lookup list: the subset silently loses the lookup (and the glyphs it would substitute or position stay as they are)", nil)
+					}
+					continue
+				}
 				if !(implementsSubtable(w, t) || implementsSubtable(w, types.NewPointer(t))) {
 					continue
 				}
